@@ -20,8 +20,8 @@ package server6
 //@ contract (*Server).Serve
 //@   requires s != nil && s.conn != nil && s.logger != nil && s.handler != nil
 //@   ensures[returns-on-read-error] result != nil
-//@   after `n, peer, err := s.conn.ReadFrom(rbuf)` let S0 = spawned()
-//@   after `n, peer, err := s.conn.ReadFrom(rbuf)` let N0 = allocstamp()
+//@   after `call:ReadFrom` let S0 = spawned()
+//@   after `call:ReadFrom` let N0 = allocstamp()
 //@   after `s.logger.Printf("Error parsing DHCPv6 request: %v", err)` assert[undecodable-not-dispatched] spawned() == S0 && !dhcpv6.SpecAcceptV6(string(rbuf[:n]))
-//@   after `go s.handler(s.conn, peer, d)` assert[dispatched-once] spawned() == S0 + 1 && d != nil && dhcpv6.SpecAcceptV6(string(rbuf[:n]))
-//@   after `go s.handler(s.conn, peer, d)` assert[own-message] (typeIs(d, *dhcpv6.Message) || typeIs(d, *dhcpv6.RelayMessage)) && (typeIs(d, *dhcpv6.Message) ==> ref(d.(*dhcpv6.Message)) >= N0) && (typeIs(d, *dhcpv6.RelayMessage) ==> ref(d.(*dhcpv6.RelayMessage)) >= N0)
+//@   after `go:` assert[dispatched-once] spawned() == S0 + 1 && d != nil && dhcpv6.SpecAcceptV6(string(rbuf[:n]))
+//@   after `go:` assert[own-message] (typeIs(d, *dhcpv6.Message) || typeIs(d, *dhcpv6.RelayMessage)) && (typeIs(d, *dhcpv6.Message) ==> ref(d.(*dhcpv6.Message)) >= N0) && (typeIs(d, *dhcpv6.RelayMessage) ==> ref(d.(*dhcpv6.RelayMessage)) >= N0)
